@@ -1,5 +1,5 @@
 """Correspondence for the source-to-Lean translator (gen/py2lean.py) and its run-time library (lean/Asn1/PyLite.lean):
-the *translation* of a function (driver ops KTAG, KLEN, KTOBYTES, KOIDENC, KOIDDEC, KTIME, KREAL, KREALDEC, KDECLEN, KDECTAG, KOCTCHUNK, KSETOF, KCERBOOLENC, KBERBOOLENC, KINTENC, KWREAD, KWMARK, KREADTURN, KEOSTURN, PYBIO, KCRANGE, KCSIZE, KCSINGLE, KCALPHA, KCERBOOL, KWRAP, KINTDEC, KBITSDEC, KBITSFROM, KNULLDEC, KBERBOOLDEC, KREQSEEN, KSEQOFIDX, KANYCAP; PYFROMBYTES) and the function itself in /repo are
+the *translation* of a function (driver ops KTAG, KLEN, KTOBYTES, KOIDENC, KOIDDEC, KTIME, KREAL, KREALDEC, KDECLEN, KDECTAG, KOCTCHUNK, KSETOF, KCERBOOLENC, KBERBOOLENC, KINTENC, KWREAD, KWMARK, KREADTURN, KEOSTURN, PYBIO, KCRANGE, KCSIZE, KCSINGLE, KCALPHA, KCERBOOL, KWRAP, KINTDEC, KBITSDEC, KBITSFROM, KNULLDEC, KBERBOOLDEC, KREQSEEN, KSEQOFIDX, KANYCAP, KEXPLGUESS; PYFROMBYTES) and the function itself in /repo are
 run on the same arguments; the Python builtins PyLite transcribes (PYOP) are compared with CPython.
 
 A disagreement means the translator or PyLite misrepresents the code (machinery fault to repair) - it is reported as a
@@ -47,7 +47,7 @@ def _py(f, *a, **kw):
     return ('ok', r)
 
 
-def check(rep, drv, seed, n=400, which=('encodeTag', 'encodeLength', 'toBytes', 'oidEncode', 'oidDecode', 'timeCanon', 'realBin', 'realDec', 'decodeLength', 'cerBool', 'wrapTags', 'intDecode', 'decodeTag', 'octetChunks', 'constraintLeaves', 'setOfSort', 'streamWrapper', 'readTurn', 'bitsDecode', 'nullDecode', 'berBoolDec', 'requiredSeen', 'seqOfIdx', 'anyCapture')):
+def check(rep, drv, seed, n=400, which=('encodeTag', 'encodeLength', 'toBytes', 'oidEncode', 'oidDecode', 'timeCanon', 'realBin', 'realDec', 'decodeLength', 'cerBool', 'wrapTags', 'intDecode', 'decodeTag', 'octetChunks', 'constraintLeaves', 'setOfSort', 'streamWrapper', 'readTurn', 'bitsDecode', 'nullDecode', 'berBoolDec', 'requiredSeen', 'seqOfIdx', 'anyCapture', 'explicitGuess')):
     """returns number of cases compared"""
     from pyasn1.codec.ber import encoder as benc, decoder as bdec
     from pyasn1.compat import integer
@@ -918,6 +918,24 @@ def check(rep, drv, seed, n=400, which=('encodeTag', 'encodeLength', 'toBytes', 
                     raise _err7.SubstrateUnderrunError('underrun')
                 return ['no-value']
             cmp_('anyCapture', 'KANYCAP %d %d %d %d %s' % (mark, start, unt, length, ' '.join(str(b) for b in data)), _py(real_a))
+    if 'explicitGuess' in which:
+        # an element under a tag no codec is registered for, decoded without a guiding type: opened as an explicit wrapper
+        # (state 6, the contents decode as a nested element) or refused (the decoder's error state)
+        from pyasn1.codec.ber import decoder as _bd8
+        es = _bd8.SingleItemDecoder.defaultErrorState
+        for cls in (0, 0x40, 0x80, 0xC0):
+            for fmt in (0, 0x20):
+                for num in ((13, 29) if cls == 0 else (0, 5, 30, 31, 200)):       # universal: numbers without a codec
+                    ident = bytes([cls | fmt | num]) if num < 31 else bytes([cls | fmt | 31]) + (bytes([0x81, num & 0x7f]) if num > 127 else bytes([num]))
+                    data = ident + b'\x02\x05\x00'
+
+                    def real_g():
+                        v, rest = bdec.decode(data)
+                        return [6]
+                    r = _py(real_g)
+                    if r[0] == 'err' and r[1] in ('PyAsn1Error',):
+                        r = ('ok', [es])
+                    cmp_('explicitGuess', 'KEXPLGUESS %d %d %d' % (es, cls, fmt), r)
     rep.count('kernel_correspondence', done)
     return done + nonlocal_done[0]
 
